@@ -1,4 +1,5 @@
 import CGV.Props.C12
+import CGV.Props.C12Reach
 #print axioms CGV.C12.C12_keys
 #print axioms CGV.C12.C12_monotone
 #print axioms CGV.C12.C12_blocks
@@ -6,3 +7,5 @@ import CGV.Props.C12
 #print axioms CGV.C12.C12_edges
 #print axioms CGV.C12.C12_names_distinct
 #print axioms CGV.C12.C12_name_step
+#print axioms CGV.C12.phaseB_keys
+#print axioms CGV.C12.C12_step_keys
